@@ -358,10 +358,12 @@ class _ConstMethods(ast.NodeTransformer):
 
 
 class _PrivateProps:
-    """A private read-only property (`@property def _x(self)`, defined once in the module, no setter / deleter, every access in
-    the module a read of `<self>._x` inside a method) is written as the plain method it is: the decorator is dropped and every
-    read becomes the call `<self>._x()`.  Reading a property IS calling its getter; spelled as a call, the getter is followed like
-    any other helper.  The pinned tree has no private properties: it is unchanged by this pass."""
+    """A private property (`@property def _x(self)`, defined once in the module, no deleter, every access in the module a read
+    of `<self>._x` inside a method) is written as the plain method it is: the decorator is dropped and every read becomes the call
+    `<self>._x()`.  Reading a property IS calling its getter; spelled as a call, the getter is followed like any other helper.
+    A setter (`@_x.setter def _x(self, value)`) is treated the same way: it becomes the method `_x__set` and every plain
+    assignment `<self>._x = V` the call `<self>._x__set(V)` (any other kind of store - augmented, tuple target, del - leaves the
+    property alone).  The pinned tree has no private properties: it is unchanged by this pass."""
     def __init__(self):
         self.converted: List[str] = []
 
@@ -371,16 +373,27 @@ class _PrivateProps:
             if isinstance(n, _FUNCS):
                 counts[n.name] = counts.get(n.name, 0) + 1
         cands: Dict[str, ast.FunctionDef] = {}
+        setters: Dict[str, ast.FunctionDef] = {}
         for c in ast.walk(tree):
             if not isinstance(c, ast.ClassDef):
                 continue
             for st in c.body:
-                if isinstance(st, ast.FunctionDef) and st.name.startswith("_") and not st.name.startswith("__") and counts.get(st.name) == 1 \
+                if isinstance(st, ast.FunctionDef) and st.name.startswith("_") and not st.name.startswith("__") and counts.get(st.name) in (1, 2) \
                         and len(st.decorator_list) == 1 and isinstance(st.decorator_list[0], ast.Name) and st.decorator_list[0].id == "property" \
                         and len(st.args.args) == 1 and not (st.args.vararg or st.args.kwarg or st.args.kwonlyargs or st.args.posonlyargs):
+                    if counts[st.name] == 2:
+                        # the second definition must be this property's setter, in the same class
+                        sets = [x for x in c.body if isinstance(x, ast.FunctionDef) and x is not st and x.name == st.name and len(x.decorator_list) == 1
+                                and isinstance(x.decorator_list[0], ast.Attribute) and x.decorator_list[0].attr == "setter"
+                                and isinstance(x.decorator_list[0].value, ast.Name) and x.decorator_list[0].value.id == st.name
+                                and len(x.args.args) == 2 and not (x.args.vararg or x.args.kwarg or x.args.kwonlyargs or x.args.posonlyargs or x.args.defaults)]
+                        if len(sets) != 1 or (st.name + "__set") in counts:
+                            continue
+                        setters[st.name] = sets[0]
                     cands[st.name] = st
         if not cands:
             return
+        stores: Dict[str, List[ast.Attribute]] = {k: [] for k in cands}
         # every mention of the name must be a read on the `self` of an enclosing method
         uses: Dict[str, List[ast.Attribute]] = {k: [] for k in cands}
         bad: set = set()
@@ -390,7 +403,8 @@ class _PrivateProps:
                 if isinstance(ch, _FUNCS):
                     own = ch.args.args[0].arg if ch.args.args and not any(isinstance(d, ast.Name) and d.id == "staticmethod" for d in ch.decorator_list) else None
                     for d in ch.decorator_list:
-                        scan(d, selfname)
+                        if ch is not setters.get(ch.name):
+                            scan_stmt(d, selfname)
                     for b in ch.body:
                         scan_stmt(b, own if own is not None else selfname)
                     continue
@@ -400,6 +414,9 @@ class _PrivateProps:
             if isinstance(node, ast.Attribute) and node.attr in cands:
                 if isinstance(node.ctx, ast.Load) and isinstance(node.value, ast.Name) and selfname is not None and node.value.id == selfname:
                     uses[node.attr].append(node)
+                elif isinstance(node.ctx, ast.Store) and node.attr in setters and isinstance(node.value, ast.Name) and selfname is not None \
+                        and node.value.id == selfname:
+                    stores[node.attr].append(node)
                 else:
                     bad.add(node.attr)
             if isinstance(node, ast.Constant) and node.value in cands:
@@ -418,10 +435,25 @@ class _PrivateProps:
                     for i, v in enumerate(val):
                         if isinstance(v, ast.AST):
                             parent[id(v)] = (n, fld, i)
+        for name in list(setters):
+            # a store is converted only as the single target of a plain assignment statement
+            for a in stores[name]:
+                par, fld, i = parent[id(a)]
+                if not (isinstance(par, ast.Assign) and fld == "targets" and len(par.targets) == 1 and id(par) in parent and parent[id(par)][2] is not None):
+                    bad.add(name)
         for name, fn in cands.items():
-            if name in bad or not uses[name]:
+            if name in bad or not (uses[name] or stores[name]):
                 continue
             fn.decorator_list = []
+            if name in setters:
+                setters[name].decorator_list = []
+                setters[name].name = name + "__set"
+                for a in stores[name]:
+                    asg = parent[id(a)][0]
+                    tgt = ast.copy_location(ast.Attribute(value=a.value, attr=name + "__set", ctx=ast.Load()), a)
+                    call = ast.copy_location(ast.Expr(value=ast.copy_location(ast.Call(func=tgt, args=[asg.value], keywords=[]), asg)), asg)
+                    par, fld, i = parent[id(asg)]
+                    getattr(par, fld)[i] = call
             for a in uses[name]:
                 call = ast.copy_location(ast.Call(func=a, args=[], keywords=[]), a)
                 par, fld, i = parent[id(a)]
@@ -634,10 +666,13 @@ class _GenInline:
     `break` (inside the loop that ends g's body, not inside an inner loop) or dropped (last statement).
     The pinned tree contains no generator functions: it is unchanged by this pass."""
 
-    def __init__(self):
+    def __init__(self, imported: Optional[Dict[str, ast.FunctionDef]] = None):
         self.inlined = 0
         self.dropped: List[str] = []
         self._k = 0
+        # module-level generator functions of sibling modules of the package that this module imports by name (`from .m import g`):
+        # {local alias: definition}; only generators closed over their parameters and builtins (see closed_generator) are offered
+        self.imported = imported or {}
 
     # ------------------------------------------------------------------ driver
     def visit(self, tree: ast.Module) -> None:
@@ -649,6 +684,12 @@ class _GenInline:
                 counts[n.name] = counts.get(n.name, 0) + 1
         mod_gens = {st.name: (st, None) for st in tree.body
                     if isinstance(st, ast.FunctionDef) and counts.get(st.name) == 1 and not st.decorator_list and self._shape(st) is not None}
+        rebound = {n.id for n in ast.walk(tree) if isinstance(n, ast.Name) and isinstance(n.ctx, (ast.Store, ast.Del))} \
+            | {a.arg for f in ast.walk(tree) if isinstance(f, _FUNCS + (ast.Lambda,)) for a in f.args.posonlyargs + f.args.args + f.args.kwonlyargs
+               + ([f.args.vararg] if f.args.vararg else []) + ([f.args.kwarg] if f.args.kwarg else [])}
+        for alias, g in self.imported.items():
+            if alias not in counts and alias not in rebound and alias not in mod_gens and self._shape(g) is not None:
+                mod_gens[alias] = (g, None)
         for c in [tree] + [x for x in ast.walk(tree) if isinstance(x, ast.ClassDef)]:
             cls_gens: Dict[str, Tuple[ast.FunctionDef, Optional[str]]] = {}
             if isinstance(c, ast.ClassDef):
@@ -774,7 +815,7 @@ class _GenInline:
                     continue
                 new = None
                 if isinstance(st, ast.For) and not st.orelse:
-                    new = self._expand_loop(st, selfname, mod_gens, cls_gens)
+                    new = self._expand_loop(st, selfname, mod_gens, cls_gens, fn)
                 elif isinstance(st, (ast.Assign, ast.AnnAssign, ast.Return)) and st.value is not None:
                     new = self._expand_collect(st, selfname, mod_gens, cls_gens)
                 if new is not None:
@@ -899,7 +940,7 @@ class _GenInline:
             out.append(st)
         return out
 
-    def _expand_loop(self, loop: ast.For, selfname: Optional[str], mod_gens, cls_gens) -> Optional[List[ast.stmt]]:
+    def _expand_loop(self, loop: ast.For, selfname: Optional[str], mod_gens, cls_gens, owner=None) -> Optional[List[ast.stmt]]:
         copy = self.copy
         got = self._callee(loop.iter, selfname, mod_gens, cls_gens)
         if got is None:
@@ -910,12 +951,14 @@ class _GenInline:
             return None
 
         # the loop body neither leaves nor resumes the generator by itself
-        def own_jumps(body) -> bool:
+        def own_jumps(body) -> set:
             stack = list(body)
+            kinds = set()
             while stack:
                 x = stack.pop()
                 if isinstance(x, (ast.Break, ast.Continue)):
-                    return True
+                    kinds.add(type(x).__name__)
+                    continue
                 if isinstance(x, _FUNCS + (ast.ClassDef, ast.Lambda)):
                     continue
                 if isinstance(x, (ast.For, ast.AsyncFor, ast.While)):
@@ -923,9 +966,14 @@ class _GenInline:
                     stack.extend(x.orelse)
                     continue
                 stack.extend(ast.iter_child_nodes(x))
-            return False
+            return kinds
 
-        if own_jumps(loop.body):
+        jumps = own_jumps(loop.body)
+        if "Break" in jumps:
+            return None
+        if "Continue" in jumps and not self._tail_yields(g):
+            # (`continue` resumes the generator; written out it starts the next round of the loop of g that the body was put
+            #  into - the same thing exactly when every yield is the last statement of a loop body of g)
             return None
         body_stores = {x.id for b in loop.body for x in ast.walk(b) if isinstance(x, ast.Name) and isinstance(x.ctx, (ast.Store, ast.Del))}
         body_stores |= {x.id for x in ast.walk(loop.target) if isinstance(x, ast.Name)}
@@ -933,9 +981,13 @@ class _GenInline:
         if inst is None:
             return None
         prelude, body, _pre = inst
+        merged = self._merge_targets(loop, body, prelude, _pre, owner)
 
         def at_yield(val: ast.expr) -> List[ast.stmt]:
             out: List[ast.stmt] = []
+            if merged:
+                # the generator's own variables were renamed to the loop's targets: nothing to bind
+                return [copy.deepcopy(b) for b in loop.body]
             tgt = copy.deepcopy(loop.target)
             if isinstance(tgt, ast.Tuple) and isinstance(val, ast.Tuple) and len(tgt.elts) == len(val.elts) \
                     and all(isinstance(t_, ast.Name) for t_ in tgt.elts) and all(isinstance(v_, (ast.Name, ast.Constant)) for v_ in val.elts):
@@ -950,6 +1002,92 @@ class _GenInline:
         for st in new:
             ast.fix_missing_locations(st)
         return new
+
+    def _merge_targets(self, loop: ast.For, body: List[ast.stmt], prelude: List[ast.stmt], pre: str, owner) -> bool:
+        """`for a, b in g(): BODY` where every yield of g is `yield x, y` with plain locals x, y of g: rather than binding `a = x; b = y`
+        at the yield, g's locals x, y are given the names a, b.  The two sets of variables hold the same values whenever the consumer
+        looks (BODY runs while g is suspended at the yield) provided the consumer
+          - never stores to a / b itself (BODY, nested scopes included) and does not capture them in a nested scope,
+          - mentions a / b nowhere outside this loop (after the loop a would be the LAST YIELDED x, while g's x may have moved on),
+        and x, y are locals of g that are not its parameters, distinct, and the same for every yield.  -> True when renamed (in place)."""
+        if owner is None:
+            return False
+        tgt = loop.target
+        tnames = [tgt] if isinstance(tgt, ast.Name) else (list(tgt.elts) if isinstance(tgt, ast.Tuple) else None)
+        if not tnames or not all(isinstance(t, ast.Name) for t in tnames) or len({t.id for t in tnames}) != len(tnames):
+            return False
+        ys = [n.value for st in body for n in ast.walk(st) if isinstance(n, ast.Expr) and isinstance(n.value, ast.Yield)]
+        if not ys:
+            return False
+        shapes = set()
+        for y in ys:
+            v = y.value
+            vn = [v] if isinstance(v, ast.Name) and isinstance(tgt, ast.Name) else (list(v.elts) if isinstance(v, ast.Tuple) and isinstance(tgt, ast.Tuple) else None)
+            if not vn or len(vn) != len(tnames) or not all(isinstance(x, ast.Name) and x.id.startswith(pre) for x in vn):
+                return False
+            shapes.add(tuple(x.id for x in vn))
+        if len(shapes) != 1:
+            return False
+        locs = list(shapes.pop())
+        if len(set(locs)) != len(locs):
+            return False
+        # not parameters of g (those are bound in the prelude)
+        bound_in_prelude = {t.id for st in prelude for t in ast.walk(st) if isinstance(t, ast.Name) and isinstance(t.ctx, ast.Store)}
+        if set(locs) & bound_in_prelude:
+            return False
+        want = {t.id for t in tnames}
+        # the consumer: no store to the targets in BODY, no nested scope mentioning them, no mention outside the loop
+        for b in loop.body:
+            for n in ast.walk(b):
+                if isinstance(n, ast.Name) and n.id in want and isinstance(n.ctx, (ast.Store, ast.Del)):
+                    return False
+                if isinstance(n, _FUNCS + (ast.Lambda, ast.ClassDef, ast.GeneratorExp, ast.ListComp, ast.SetComp, ast.DictComp)):
+                    if any(isinstance(m, ast.Name) and m.id in want for m in ast.walk(n)):
+                        return False
+        inside = {id(n) for n in ast.walk(loop)}
+        for n in ast.walk(owner):
+            if id(n) in inside:
+                continue
+            if isinstance(n, ast.Name) and n.id in want:
+                return False
+            if isinstance(n, ast.arg) and n.arg in want:
+                return False
+            if isinstance(n, (ast.Global, ast.Nonlocal)) and set(n.names) & want:
+                return False
+        ren = dict(zip(locs, [t.id for t in tnames]))
+        for st in body:
+            for n in ast.walk(st):
+                if isinstance(n, ast.Name) and n.id in ren:
+                    n.id = ren[n.id]
+        return True
+
+    @staticmethod
+    def _tail_yields(g: ast.FunctionDef) -> bool:
+        """every `yield E` statement of g is the last statement of the body of a loop of g"""
+        ok = True
+        found = 0
+
+        def walk(stmts: List[ast.stmt], tail_of_loop: bool) -> None:
+            nonlocal ok, found
+            for i, st in enumerate(stmts):
+                if isinstance(st, ast.Expr) and isinstance(st.value, ast.Yield):
+                    found += 1
+                    if not (tail_of_loop and i == len(stmts) - 1):
+                        ok = False
+                    continue
+                if isinstance(st, (ast.For, ast.While)):
+                    walk(st.body, True)
+                    walk(st.orelse, False)
+                    continue
+                for fld in ("body", "orelse", "finalbody"):
+                    sub = getattr(st, fld, None)
+                    if isinstance(sub, list) and sub and isinstance(sub[0], ast.stmt):
+                        walk(sub, False)
+                for h in getattr(st, "handlers", []) or []:
+                    walk(h.body, False)
+
+        walk(g.body, False)
+        return ok and found > 0
 
     def _expand_collect(self, st: ast.stmt, selfname: Optional[str], mod_gens, cls_gens) -> Optional[List[ast.stmt]]:
         """`x = list(g(args))` / `return tuple(g(args))`: g run to exhaustion into a list"""
@@ -1193,9 +1331,35 @@ def _clone(e: ast.AST) -> ast.AST:
     return copy.deepcopy(e)
 
 
-def normalise(tree: ast.Module) -> ast.Module:
-    gi = _GenInline()
-    if any(isinstance(x, ast.Yield) for x in ast.walk(tree)):
+def closed_generators(tree: ast.Module) -> Dict[str, ast.FunctionDef]:
+    """Module-level plain generator functions (undecorated, defined once) whose bodies mention nothing but their own parameters,
+    their own locals and builtins: written out in another module they mean exactly the same."""
+    import builtins
+    counts: Dict[str, int] = {}
+    for n in ast.walk(tree):
+        if isinstance(n, _FUNCS):
+            counts[n.name] = counts.get(n.name, 0) + 1
+    out: Dict[str, ast.FunctionDef] = {}
+    for st in tree.body:
+        if not (isinstance(st, ast.FunctionDef) and counts.get(st.name) == 1 and not st.decorator_list
+                and any(isinstance(x, ast.Yield) for x in _own_nodes(st))):
+            continue
+        a = st.args
+        if a.defaults or any(d is not None for d in a.kw_defaults) and not all(isinstance(d, ast.Constant) for d in a.kw_defaults if d is not None):
+            if not all(isinstance(d, ast.Constant) for d in a.defaults):
+                continue
+        local = {x.arg for x in a.posonlyargs + a.args + a.kwonlyargs}
+        body_nodes = [n for b in st.body for n in ast.walk(b)]
+        local |= {n.id for n in body_nodes if isinstance(n, ast.Name) and isinstance(n.ctx, ast.Store)}
+        free = {n.id for n in body_nodes if isinstance(n, ast.Name) and isinstance(n.ctx, ast.Load) and n.id not in local}
+        if all(hasattr(builtins, x) for x in free) and not any(isinstance(n, (ast.Global, ast.Nonlocal)) for n in body_nodes):
+            out[st.name] = st
+    return out
+
+
+def normalise(tree: ast.Module, imported_gens: Optional[Dict[str, ast.FunctionDef]] = None) -> ast.Module:
+    gi = _GenInline(imported_gens)
+    if imported_gens or any(isinstance(x, ast.Yield) for x in ast.walk(tree)):
         _Fold().visit(tree)  # (`gen = self._items(...)` followed by `for x in gen:` becomes a loop over the call)
         gi.visit(tree)
     tree._tpsa_gen_inlined = gi.inlined  # type: ignore[attr-defined]
